@@ -201,7 +201,23 @@ func runWhitelists(c *Ctx, p *wlPatch) error {
 		}
 	}
 	p.input["whitelists"] = len(p.wls)
-	c.Out.Emit(&lib.Case{Group: "wl", Class: p.class, Nontrivial: len(p.newC.Files) >= 2 && len(p.wls) >= 2,
+	// The model keeps a file as a flat list, so every write costs its whole length: a series of
+	// thousands of tiny bsdiff controls (bsdiff does that on long runs) would take minutes in
+	// Coq. Such a patch is judged by the oracle only.
+	group, cost := "wl", 0
+	idx := -1
+	for _, m := range p.msgs {
+		if m.Kind == "sh" {
+			idx++
+		} else if idx >= 0 && idx < len(p.newC.Files) {
+			cost += int(p.newC.Files[idx].Size)
+		}
+	}
+	if cost*len(rs) > 150_000_000 {
+		group = ""
+		p.class += "/oracle-only(too many writes for the model)"
+	}
+	c.Out.Emit(&lib.Case{Group: group, Class: p.class, Nontrivial: len(p.newC.Files) >= 2 && len(p.wls) >= 2,
 		Input: p.input, Obs: map[string]interface{}{"runs": obsRuns}, Oracle: oracle, Finding: finding,
 		Coq: fmt.Sprintf("($ID%%N, %s, %s, %s, %s, %s)", lib.CoqContainer(p.oldC, d), lib.CoqContainer(p.newC, d),
 			coqRleList(oldContents(p.oldC, p.old)), lib.CoqMsgs(p.msgs), lib.CoqList(rs))})
